@@ -14,18 +14,17 @@ git diff > /tmp/confirm.$$.patch
 if ! go build ./... ; then echo "CONFIRM: build fails"; cleanup; exit 1; fi
 if ! go test -vet=off -count=1 ./... > /tmp/confirm.$$.log 2>&1; then echo "CONFIRM: suite fails with patch"; grep -v "^ok\|no test files" /tmp/confirm.$$.log | head; rm -f /tmp/confirm.$$.log; cleanup; exit 1; fi
 rm -f /tmp/confirm.$$.log
-DEMO=$(ls "$OUT"/*_test.go | head -1)
-cp "$DEMO" "$WT/$DEST/zz_seed_demo_test.go"
+for f in "$OUT"/*_test.go; do cp "$f" "$WT/$DEST/zz_seed_$(basename "$f")"; done
 if go test -vet=off -count=1 -run "$RUN" "./$DEST/" > /tmp/confirm.$$.d1 2>&1; then echo "CONFIRM: demo PASSES with the patch (should fail)"; rm -f /tmp/confirm.$$.d1; cleanup; exit 1; fi
 grep -q "^--- FAIL\|^FAIL" /tmp/confirm.$$.d1 || { echo "CONFIRM: demo did not fail cleanly"; head -20 /tmp/confirm.$$.d1; }
 rm -f /tmp/confirm.$$.d1
-git checkout -q -- . 
+git checkout -q -- .
 if ! go test -vet=off -count=1 -run "$RUN" "./$DEST/" > /tmp/confirm.$$.d2 2>&1; then echo "CONFIRM: demo FAILS on the clean tree"; head -20 /tmp/confirm.$$.d2; rm -f /tmp/confirm.$$.d2; cleanup; exit 1; fi
 rm -f /tmp/confirm.$$.d2
 cleanup; cd /
 cd /; mkdir -p /verif/seeded/$NAME
 cp /tmp/confirm.$$.patch /verif/seeded/$NAME/patch.diff; rm -f /tmp/confirm.$$.patch
-cp "$DEMO" /verif/seeded/$NAME/$(basename "$DEMO")
+for f in "$OUT"/*_test.go; do cp "$f" /verif/seeded/$NAME/$(basename "$f"); done
 python3 - "$OUT/meta.json" "/verif/seeded/$NAME/meta.json" "$DEST" "$RUN" <<'PY'
 import json,sys
 m=json.load(open(sys.argv[1]))
